@@ -1,6 +1,7 @@
 import Dia.Props.C01
 import Dia.RtTop
 import Dia.MaskFix
+import Dia.SpecTop
 /-! # C02 - Encode then decode returns the same message. Property theorems only.
 Equality is structural equality of `Msg`: header fields, AVP order, code, vendor id, flags, variant and value
 (floats as bit patterns), stored lengths and paddings, recursively. -/
@@ -52,6 +53,14 @@ theorem C02_history (cfg : Cfg) (D : Dict) (ops : List Op) (hok : OpsOk cfg { di
   intro m hh hty h24 hd
   have hg := (C01_encode_exact cfg D ops hok h24).2.2
   exact C02_roundtrip cfg D.lookup m hg hh hty h24 hd
+
+/-- **what is encoded is what an independent reader reads.** The octets produced for a consistent, typed message parse -
+in the sense of the independent relation `Spec.Parses`, which does not mention the model - as exactly the content of
+that message; by `C03_unique` as nothing else. Encoder and decoder therefore cannot share a consistent but wrong
+convention: both are pinned to `Spec`. -/
+theorem C02_encoding_parses (dict : Lookup) (m : Msg) (hg : m.Good) (hh : m.HeaderOk) (hty : TypedList dict m.avps)
+    (h24 : m.length < 16777216) : m.enc = ⟨Spec.encode m.abs, none⟩ ∧ Parses dict (Spec.encode m.abs) m.abs :=
+  ⟨(Msg.enc_spec m hg.wf hg.cons hg.len h24).1, enc_parses dict m hg hh.cmd hh.app hty h24⟩
 
 /-! non-vacuity: a message with a vendor AVP and a group, under a dictionary that types them, meets every hypothesis -/
 def exDict : Lookup := fun c v =>
